@@ -25,11 +25,25 @@ def draw_params(rng, style):
 
 
 def draw_msg(rng, n):
-    k = rng.below(8)
+    k = rng.below(10)
     if k == 0:
         return bytes(n)
     if k == 1:
         return b"\xff" * n
+    if k in (2, 3) and n >= 10:
+        # structured content: runs of zero octets inside random data (whole 32/64/128-bit blocks of zeros at aligned and
+        # unaligned offsets), sparse messages
+        b = bytearray(rng.bytes(n))
+        for _ in range(rng.range(1, 3)):
+            ln = rng.choice([4, 8, 8, 16, 24])
+            at = rng.choice([8 * rng.below(max(1, n // 8)), rng.below(n)])
+            b[at:at + ln] = bytes(min(ln, max(0, n - at)))
+        return bytes(b[:n])
+    if k == 4 and n >= 4:
+        b = bytearray(n)
+        for _ in range(rng.range(1, 3)):
+            b[rng.below(n)] = rng.range(1, 255)
+        return bytes(b)
     return rng.bytes(n)
 
 
